@@ -228,6 +228,11 @@ func (af *AdaptationField) stuffingStart() int {
 func (af *AdaptationField) stuffingEnd() int {
 	stuffingEnd := int(af[4]) + 5
 
+	if stuffingEnd == PacketSize {
+		// the adaptation field fills the packet: its last byte (index 187) is usable
+		return PacketSize
+	}
+
 	if stuffingEnd >= PacketSize {
 		return PacketSize - 1
 	}
